@@ -181,6 +181,13 @@ def classify_call(world, body, bb, term, env):
             return ("Clear", det)
         if meth in VECDEQUE_READ:
             return ("Read", det)
+        if meth == "into_iter":
+            # `for x in &deque` / `&mut deque`: element access like iter() / iter_mut(); by value it drains the deque
+            st_ = (c.get("self_ty") or "") + " " + res
+            if re.search(r"(^|<)&(mut )?std::collections::VecDeque", st_):
+                return ("Read", det)
+            det["how"] = "drain"
+            return ("Remove", det)
         if meth in ("new", "with_capacity", "default"):
             return None
         return ("OtherDeque", det)
